@@ -20,6 +20,17 @@ Theorem C02_cache_coherent : forall pre p,
 Proof. exact cache_coherent. Qed.
 Print Assumptions C02_cache_coherent.
 
+(* EXACTLY when a read of an open file answers FREAD_ERROR -- in every state, no side condition (ADFI_read_file as of
+   /repo 82c39a0: bytes beyond what the last, short block of a file holds are refused instead of served from stale
+   buffer contents): a block-crossing read iff the file ends before the last requested byte; a read inside a block iff
+   the block has no byte for it ([block_avail]: the fill count of a current read buffer, 4096 for the block the write
+   buffer holds, else what the file has of that block) or the length is negative.  Otherwise bytes are returned. *)
+Theorem C02_cache_read_error_exact : forall s f b o len d, fget s f = Some d ->
+  (fst (read_file s f b o len) = RErr FREAD_ERROR <-> read_fails s d f b o len = true) /\
+  (read_fails s d f b o len = false -> exists bs, fst (read_file s f b o len) = RBytes bs).
+Proof. exact read_file_error_exact. Qed.
+Print Assumptions C02_cache_read_error_exact.
+
 (* [safe_step] cannot be dropped: one witness history per hole, everything else in it safe. *)
 Theorem C02_cache_unsafe_refuted :
   (safe_flags init_st (wit_hole1 ++ [ORead 0 0 0 1]) = [true; true; true; false; true] /\
